@@ -98,6 +98,12 @@ CHECKS["C08"] = {
     "note": "IEEE equality of doubles (1 == 1.0, 0 == -0) is the language's; trusted.",
     "technique": "36-pair variant specialisation matrix vs. transcribed ECMA-262 table; def-use freshness rule on the operand vector; sibling arm agreement",
 }
+CHECKS["C09"] = {
+    "level": "other",
+    "text": "Necessary structural conditions of the relational operators: each takes 2 or 3 evaluated operands; with two the result is cmp(op0,op1), with three cmp(op0,op1) AND cmp(op1,op2) (second comparison under the true edge of the first, false edge constant false), operands reaching the comparator untouched; each of the four comparators converts both operands with the shared to-primitive (number hint) and — per pair of primitive kinds, by variant specialisation — performs exactly one comparison of (first, second) with the operator the table name says (string ordering for String×String, float comparison otherwise, the string side through the shared string→number conversion with None ⇒ constant false); no comparator is built from a sibling or from abstract equality; number-hint to-primitive maps Null→0, Bool→1/0 (polarity read), Number→as_f64, others→none; the shared conversion satisfies the ES structure/A3 clauses.",
+    "note": "NOT decided: code-point ordering of Rust's String comparison (trusted), the numeric value of conversions on every string.",
+    "technique": "CFG path rules on the between helper; variant specialisation over the pair of primitive kinds with comparison-operator and operand-order reading; sibling agreement; A3 dominance gate",
+}
 NOT_APPLICABLE = {}
 for i in range(1, 20):
     p = "C%02d" % i
